@@ -139,15 +139,17 @@ func buildPlain(o *opts, race bool) string {
 }
 
 // shards runs the instrumented worker n times in parallel and returns each stdout.
-func shards(o *opts, b *built, sub string, extra ...string) [][]byte {
-	n := o.procs
+func shards(o *opts, b *built, sub string, n int, extra ...string) [][]byte {
 	outs := make([][]byte, n)
 	errs := make([]error, n)
 	var wg sync.WaitGroup
+	sem := make(chan struct{}, o.procs)
 	for i := 0; i < n; i++ {
 		wg.Add(1)
 		go func() {
 			defer wg.Done()
+			sem <- struct{}{}
+			defer func() { <-sem }()
 			args := []string{sub, "--tier", o.tier, "--shard", fmt.Sprintf("%d/%d", i, n), "--repo", o.repo, "--extra", o.extra, "--replays", o.replays, "--only", o.only}
 			args = append(args, extra...)
 			so, se, err := run(o.root, append(os.Environ(), "GOMAXPROCS=1"), b.inst, args...)
@@ -293,7 +295,7 @@ func doMapOrder(o *opts) map[string]any {
 			derr[i] = json.Unmarshal(so, &dg[i])
 		}()
 	}
-	outs := shards(o, b, "maporder")
+	outs := shards(o, b, "maporder", o.procs)
 	wg.Wait()
 	for _, e := range derr {
 		if e != nil {
@@ -311,28 +313,7 @@ func doMapOrder(o *opts) map[string]any {
 	}
 	sort.Strings(procDiff)
 	sort.Strings(instDiff)
-	if len(instDiff) > 0 || len(dg[2]) != len(dg[0]) {
-		// Two plain processes agree with each other but not with the instrumented one.
-		// Re-run the instrumented digests once: a second disagreement on the same keys is ours.
-		so, _, err := run(o.root, os.Environ(), b.inst, "digests", "--repo", o.repo, "--extra", o.extra)
-		var again map[string]string
-		if err == nil && json.Unmarshal(so, &again) == nil {
-			var still []string
-			for _, k := range instDiff {
-				if again[k] != dg[0][k] {
-					still = append(still, k)
-				}
-			}
-			if len(still) > 0 {
-				fatal(fmt.Errorf("instrumented naga in pass-through mode differs from plain naga on %d outputs, e.g. %v", len(still), still[:min(5, len(still))]))
-			}
-		}
-		procDiff = append(procDiff, instDiff...)
-	}
-	for _, k := range procDiff {
-		vs = append(vs, violation{Key: "output differs between fresh processes: " + k, Detail: "two fresh processes compiling " + k + " with identical options produced different output (digests " + dg[0][k] + " vs " + dg[1][k] + "/" + dg[2][k] + ")", Count: 1})
-	}
-
+	passDiff := append(procDiff, instDiff...)
 	type siteInfo struct {
 		Max     int    `json:"max_keys"`
 		Walks   int    `json:"walks"`
@@ -377,7 +358,7 @@ func doMapOrder(o *opts) map[string]any {
 	}
 	type siteRow struct {
 		Site        string `json:"site"`
-		Func        string `json:"func"`
+		Pos         string `json:"pos"`
 		KeyType     string `json:"key_type"`
 		Max         int    `json:"max_keys"`
 		Walks       int    `json:"walks"`
@@ -388,13 +369,13 @@ func doMapOrder(o *opts) map[string]any {
 	var unex []string
 	ex2, ex3 := 0, 0
 	for _, rs := range b.stats.RangeSites {
-		r := siteRow{Site: rs.ID, Func: rs.Func, KeyType: rs.KeyType}
+		r := siteRow{Site: rs.ID, Pos: rs.Pos, KeyType: rs.KeyType}
 		if s := tot.Sites[rs.ID]; s != nil {
 			r.Max, r.Walks, r.Witness = s.Max, s.Walks, s.Witness
 		}
 		if r.Max < 2 {
 			r.Unexercised = true
-			unex = append(unex, fmt.Sprintf("%s (max %d)", rs.ID, r.Max))
+			unex = append(unex, fmt.Sprintf("%s (%s, max %d)", rs.ID, rs.Pos, r.Max))
 		} else {
 			ex2++
 			if r.Max >= 3 {
@@ -402,6 +383,33 @@ func doMapOrder(o *opts) map[string]any {
 			}
 		}
 		rows = append(rows, r)
+	}
+	// A difference between fresh processes is a violation when the order
+	// exploration shows that the program's lowering or that stage depends on map
+	// order (the processes merely drew different native orders). A difference
+	// between the plain and the instrumented build that the exploration cannot
+	// account for means the instrumentation changed behaviour: harness error.
+	depends := map[string]bool{}
+	for _, v := range vs {
+		// "map order changes output: <stage>: <program>: sites=..."
+		if rest, ok := strings.CutPrefix(v.Key, "map order changes output: "); ok {
+			if parts := strings.SplitN(rest, ": ", 3); len(parts) == 3 {
+				depends[parts[1]+"|"+parts[0]] = true
+			}
+		}
+	}
+	var unexplained []string
+	for _, k := range passDiff {
+		prog, _, _ := strings.Cut(k, "|")
+		if depends[k] || depends[prog+"|lower"] {
+			vs = append(vs, violation{Key: "output differs between fresh processes: " + k, Count: 1,
+				Detail: "fresh processes compiling " + k + " with identical options produced different output (digests " + dg[0][k] + " / " + dg[1][k] + " / " + dg[2][k] + "); the order exploration attributes it to map iteration order"})
+		} else {
+			unexplained = append(unexplained, k)
+		}
+	}
+	if len(unexplained) > 0 || len(dg[2]) != len(dg[0]) {
+		fatal(fmt.Errorf("outputs differ between the plain and the instrumented (pass-through) build, or between two plain processes, on %d outputs that the map-order exploration does not explain, e.g. %v", len(unexplained), unexplained[:min(5, len(unexplained))]))
 	}
 	vs = mergeViolations(vs)
 	return map[string]any{
@@ -431,7 +439,16 @@ func doInterleave(o *opts) map[string]any {
 	if o.budget > 0 {
 		extra = append(extra, "--budget", fmt.Sprint(o.budget))
 	}
-	outs := shards(o, b, "interleave", extra...)
+	// One worker process per scenario, o.procs at a time.
+	so, se, err := run(o.root, os.Environ(), b.inst, "scenarios", "--repo", o.repo)
+	if err != nil {
+		fatal(fmt.Errorf("listing scenarios: %v\n%s", err, se))
+	}
+	var names []string
+	if err := json.Unmarshal(so, &names); err != nil {
+		fatal(err)
+	}
+	outs := shards(o, b, "interleave", len(names), extra...)
 	type part struct {
 		Scenarios  []map[string]any `json:"scenarios"`
 		Violations []violation      `json:"violations"`
@@ -477,6 +494,7 @@ func doInterleave(o *opts) map[string]any {
 		}
 	}
 	vs = mergeViolations(vs)
+	confirmFresh(o, b, vs)
 	return map[string]any{
 		"ok": len(vs) == 0, "violations": vs,
 		"exhaustive": capped == 0 && inexh == 0,
@@ -489,6 +507,51 @@ func doInterleave(o *opts) map[string]any {
 		"missing_programs": missing,
 		"scenarios":        scen,
 		"overlay":          overlaySummary(b.stats),
+	}
+}
+
+// confirmFresh replays, twice and each time in a fresh process, the witnesses
+// that could not be confirmed inside the exploring process (executions that
+// changed process-wide state). Both replays must show the finding and agree
+// with each other.
+func confirmFresh(o *opts, b *built, vs []violation) {
+	for i := range vs {
+		if vs[i].Replay == "" {
+			continue
+		}
+		raw, err := os.ReadFile(vs[i].Replay)
+		if err != nil {
+			continue
+		}
+		var probe struct {
+			Kind  string `json:"kind"`
+			Fresh bool   `json:"fresh_process"`
+		}
+		if json.Unmarshal(raw, &probe) != nil || !(probe.Kind == "solo" || probe.Fresh) {
+			continue
+		}
+		var sigs []string
+		for k := 0; k < 2; k++ {
+			so, se, err := run(o.root, append(os.Environ(), "GOMAXPROCS=1"), b.inst, "replay", "--repo", o.repo, vs[i].Replay)
+			if err != nil {
+				fatal(fmt.Errorf("replaying %s: %v\n%s", vs[i].Replay, err, se))
+			}
+			var r struct {
+				Reproduced bool   `json:"reproduced"`
+				Signature  string `json:"signature"`
+			}
+			if err := json.Unmarshal(so, &r); err != nil {
+				fatal(err)
+			}
+			if !r.Reproduced {
+				fatal(fmt.Errorf("witness %s (%s) did not reproduce in a fresh process", vs[i].Replay, vs[i].Key))
+			}
+			sigs = append(sigs, r.Signature)
+		}
+		if sigs[0] != sigs[1] {
+			fatal(fmt.Errorf("witness %s: two fresh-process replays disagree:\n %s\n %s", vs[i].Replay, sigs[0], sigs[1]))
+		}
+		vs[i].Detail += " [confirmed by two fresh-process replays]"
 	}
 }
 
@@ -527,27 +590,57 @@ func parseRaces(log string, repo string) []raceReport {
 			if kind == "previous" || kind == "atomic" {
 				kind = strings.ToLower(strings.Fields(blk[s[0]:s[1]])[1])
 			}
-			fr := frameRe.FindAllStringSubmatch(sec, 3)
+			// Top frame outside the Go runtime: the function is the key, file:line goes in the detail.
+			fr := frameRe.FindAllStringSubmatch(sec, 4)
 			var fs []string
 			for _, f := range fr {
-				file := strings.TrimPrefix(f[2], repo+"/")
-				fn := strings.TrimPrefix(f[1], "github.com/gogpu/naga/")
-				fs = append(fs, fmt.Sprintf("%s (%s:%s)", fn, file, f[3]))
-				if !strings.HasPrefix(f[1], "runtime.") && len(fs) >= 2 {
-					break
+				if strings.HasPrefix(f[1], "runtime.") && len(fr) > 1 {
+					continue
 				}
+				fs = append(fs, strings.TrimPrefix(f[1], "github.com/gogpu/naga/"))
+				break
 			}
 			tops = append(tops, kind+" "+strings.Join(fs, " < "))
 		}
-		if len(tops) < 2 {
-			tops = append(tops, "?")
+		// Stable key: the writing side(s). Which reader happens to collide with a
+		// write varies from run to run; the readers are listed in the detail.
+		var writers, readers []string
+		for _, t := range tops {
+			if fn, ok := strings.CutPrefix(t, "write "); ok {
+				writers = append(writers, fn)
+			} else {
+				readers = append(readers, strings.TrimPrefix(t, "read "))
+			}
 		}
-		sort.Strings(tops[:2])
-		key := "data race: " + tops[0] + " / " + tops[1]
+		sort.Strings(writers)
+		key := "data race: write in " + strings.Join(writers, " / write in ")
+		if len(readers) > 0 {
+			blk = "racing read in " + strings.Join(readers, ", ") + "\n" + blk
+		}
 		if len(blk) > 3000 {
 			blk = blk[:3000] + "…"
 		}
 		out = append(out, raceReport{key, strings.TrimSpace(blk)})
+	}
+	return out
+}
+
+func countPrefix(vs []violation, p string) int {
+	n := 0
+	for _, v := range vs {
+		if strings.HasPrefix(v.Key, p) {
+			n++
+		}
+	}
+	return n
+}
+
+func uniq(s []string) []string {
+	out := s[:0]
+	for i, v := range s {
+		if i == 0 || v != s[i-1] {
+			out = append(out, v)
+		}
 	}
 	return out
 }
@@ -567,21 +660,31 @@ func doRace(o *opts) map[string]any {
 		fatal(err)
 	}
 	env := append(os.Environ(), "GORACE=halt_on_error=0 log_path="+filepath.Join(logDir, "race"))
-	so, se, err := run(o.root, env, bin, "race", "--repo", o.repo, "--reps", fmt.Sprint(reps))
-	if err != nil {
-		if _, isExit := err.(*exec.ExitError); !isExit || len(so) == 0 {
-			fatal(fmt.Errorf("race run: %v\n%s", err, se))
-		}
-		// The race runtime exits 66 when races were reported; the JSON is still complete.
-	}
+	so, se, err := run(o.root, env, bin, "race", "--repo", o.repo, "--reps", fmt.Sprint(reps), "--only", o.only)
 	var res struct {
 		Scenarios  int      `json:"scenarios"`
 		Runs       int      `json:"runs"`
 		Mismatches []string `json:"mismatches"`
 		Missing    []string `json:"missing"`
 	}
-	if err := json.Unmarshal(so, &res); err != nil {
-		fatal(fmt.Errorf("race output: %v: %.300s\n%s", err, so, se))
+	var crash string
+	if err != nil {
+		if _, isExit := err.(*exec.ExitError); !isExit {
+			fatal(fmt.Errorf("race run: %v\n%s", err, se))
+		}
+		// The race runtime exits 66 when races were reported (the JSON is then
+		// complete). A Go fatal error (e.g. "concurrent map writes") kills the
+		// run: that is an observation about naga, not a harness failure.
+		if m := regexp.MustCompile(`(?m)^fatal error: (.*)$`).FindSubmatch(se); m != nil {
+			crash = string(m[1])
+		} else if len(so) == 0 {
+			fatal(fmt.Errorf("race run: %v\n%.2000s", err, se))
+		}
+	}
+	if crash == "" {
+		if err := json.Unmarshal(so, &res); err != nil {
+			fatal(fmt.Errorf("race output: %v: %.300s\n%.2000s", err, so, se))
+		}
 	}
 	logs, _ := filepath.Glob(filepath.Join(logDir, "race.*"))
 	var all strings.Builder
@@ -592,17 +695,47 @@ func doRace(o *opts) map[string]any {
 		all.WriteByte('\n')
 	}
 	var vs []violation
+	if crash != "" {
+		d := string(se)
+		if i := strings.Index(d, "fatal error:"); i >= 0 {
+			d = d[i:]
+		}
+		if len(d) > 3000 {
+			d = d[:3000] + "…"
+		}
+		vs = append(vs, violation{Key: "free-running harness crashed: fatal error: " + crash, Detail: d, Count: 1})
+	}
 	reports := parseRaces(all.String(), o.repo)
+	readers := map[string][]string{}
 	for _, r := range reports {
+		if rd, _, ok := strings.Cut(r.detail, "\n"); ok && strings.HasPrefix(rd, "racing read in ") {
+			readers[r.key] = append(readers[r.key], strings.TrimPrefix(rd, "racing read in "))
+		}
 		vs = append(vs, violation{Key: r.key, Detail: r.detail, Count: 1})
 	}
 	for _, m := range res.Mismatches {
-		vs = append(vs, violation{Key: "free-running output differs from solo: " + strings.SplitN(m, " output ", 2)[0], Detail: m, Count: 1})
+		// "<kind>|<program>|<backends>: thread N (<label>) output ..."
+		head := strings.SplitN(m, " output ", 2)[0]
+		parts := strings.SplitN(head, "|", 3)
+		key := "free-running output differs from solo: " + head
+		if len(parts) == 3 {
+			if i := strings.LastIndex(head, "("); i >= 0 {
+				key = fmt.Sprintf("free-running output differs from solo: %s: %s: %s", strings.TrimSuffix(head[i+1:], ")"), parts[0], parts[1])
+			}
+		}
+		vs = append(vs, violation{Key: key, Detail: m, Count: 1})
 	}
 	vs = mergeViolations(vs)
+	for i := range vs {
+		if rs := readers[vs[i].Key]; len(rs) > 0 {
+			sort.Strings(rs)
+			rs = uniq(rs)
+			vs[i].Detail = fmt.Sprintf("racing reads seen in %d functions: %s\n%s", len(rs), strings.Join(rs, ", "), vs[i].Detail)
+		}
+	}
 	return map[string]any{
 		"ok": len(vs) == 0, "violations": vs,
-		"counts":           map[string]any{"scenarios": res.Scenarios, "repetitions": reps, "concurrent_runs": res.Runs, "race_reports": len(reports), "distinct_races": len(vs) - len(res.Mismatches), "output_mismatches": len(res.Mismatches)},
+		"counts":           map[string]any{"scenarios": res.Scenarios, "repetitions": reps, "concurrent_runs": res.Runs, "race_reports": len(reports), "distinct_races": countPrefix(vs, "data race:"), "output_mismatches": len(res.Mismatches)},
 		"missing_programs": res.Missing,
 		"race_log_dir":     logDir,
 	}
